@@ -575,7 +575,8 @@ CHECKS['C02'].update({
             "FORCEWIN in path mode, for every spelling the strict path reader accepts that has no backslash and no drive-like beginning (brackets allowed), a subject is "
             "accepted exactly when its separator-normalised form is in the documented path language — both `/` and `\\\\` in the SUBJECT cut pieces, wildcards cross neither, "
             "`**` crosses both (same exclusions as the Unix theorems, read on the normalised subject); win_path_nonvacuous: on `A\\\\u/v\\\\Bcd` the model's FORCEWIN regex and "
-            "the language of the normalised subject accept, the language of the raw subject does not. " + CHECKS['C02']['text'],
+            "the language of the normalised subject accept, the language of the raw subject does not. C02negwin: C02neg_glob_win (printed patterns with `!(…)` segments and globstars) and C02_matchbase_win — the "
+            "MATCHBASE clause under Windows rules: a slash-less pattern is compared with the LAST piece of the subject cut at either separator. " + CHECKS['C02']['text'],
 })
 CHECKS['C03'].update({
     'text': "WINDOWS RULES (C03win): C03_upper_win / C03_hidden_never_win / C03_forcewin_fn — C03_upper_faithful_sharp transferred through C17win.win_eq_unix_ci (separator "
